@@ -342,10 +342,26 @@ def body_free(c, ctx):
             if (A != A0).nnz:
                 ctx.fail('free_running_differs', f'{c} nthreads={nth}', rect=ub.Nbfun != vb.Nbfun)
                 break
+        # ONE threaded form object used for several assemblies in a row, as asm() over lists of bases does: trial and test
+        # spaces exchanged (same number of local pairs, other local shape), and back
+        A0T = serial(vb, ub, param)
+        for nth in (1, 2, 3, P + 1):
+            F = BilinearForm(form, nthreads=nth)
+            for rnd in range(2):
+                for a_, b_, ref in ((ub, vb, A0), (vb, ub, A0T)):
+                    A = F.assemble(a_, b_, c=param)
+                    if A.shape != ref.shape or (A != ref).nnz:
+                        ctx.fail('reused_form_differs', f'{c} nthreads={nth}: the same form object assembled on (trial, test) and '
+                                 f'(test, trial) in turn', rect=ub.Nbfun != vb.Nbfun)
+                        break
+                if ctx.failures:
+                    break
+            if ctx.failures:
+                break
     finally:
         sys.setswitchinterval(old)
     ctx.cls(c['kind'])
-    ctx.count('free_running_assemblies', c['reps'])
+    ctx.count('free_running_assemblies', c['reps'] + 16)
     ctx.nt(True)
 
 
